@@ -370,7 +370,7 @@ CENTERS_HOSTILE = [[0.1, 0.2, 0.3, 0.7], [1e6 + 0.1, 1e6 + 0.2], [-0.3, 0.3, 1.0
 EDGES_DYADIC = [[0.0, 1.0, 3.0], [-1.0], [0.5, 1.5], [0.0, 0.25, 0.5, 0.75], []]
 EDGES_HOSTILE = [[0.1, 0.2, 0.3], [1.0 / 3, 2.0 / 3], [1e6 + 0.1, 1e6 + 0.7]]
 
-LABEL_KEYS = ["a", "b", "x1", "entries", "k y"]
+LABEL_KEYS = ["a", "b", "x1", "entries", "k y", "value", "bins", "i0", "quantity"]  # incl. names the library uses for attributes
 CATEGORIES = ["a", "b", "c", "", "entries", "NaN", "1.5", "zz", "contentType"]
 STRINGS = ["a", "b", "", "entries", "x y", "nan"]
 SELECTIONS = [True, False, 0, 1, 0.5, 2, -1, float("nan"), 0.25, 1.0, 0.0]
